@@ -5,7 +5,7 @@ package main
 // A pattern decides what counts as the same ACL line (the log attribute stripped
 // before lines are paired), which ids are Netspoc's, what a banner or a prompt is,
 // what is masked before logging.  Each constant pattern handed to regexp.MustCompile /
-// Compile / MatchString is audited with the function it stands in
+// Compile / MatchString is audited with the package it stands in
 // (tables/regexp_consts.tsv).  Patterns are compared after regexp/syntax parsing and
 // simplification, so \d and [0-9], or a non-capturing for a capturing group that is not
 // used, do not differ by spelling alone where the parser equates them.
@@ -39,12 +39,11 @@ func rxSites(p *Prog) []rxSite {
 		if len(fn.Blocks) == 0 || !isModFunc(fn) {
 			continue
 		}
-		name := fnDisplay(fn)
-		if fn.Synthetic != "" {
-			if fn.Name() != "init" || fn.Pkg == nil {
-				continue
-			}
-			name = pkgOfFunc(fn) + ".init"
+		// keyed by package: whether a pattern is compiled where it is used or once at package
+		// level is a matter of style
+		name := pkgOfFunc(fn)
+		if fn.Synthetic != "" && (fn.Name() != "init" || fn.Pkg == nil) {
+			continue
 		}
 		for _, b := range fn.Blocks {
 			for _, in := range b.Instrs {
@@ -77,7 +76,7 @@ func rxSites(p *Prog) []rxSite {
 }
 
 func ruleRegexpConsts(p *Prog, r *Report, rule, prop string, floor int) {
-	r.rule(rule, "Constant regular expressions: every constant pattern compiled or matched in the functions listed for this property in tables/regexp_consts.tsv is the audited one (compared after regexp/syntax parsing and simplification), and no further constant pattern appears in those functions. The patterns decide which ACL lines are the same line up to the log attribute, which names are Netspoc's, what is a banner, what is masked before it is logged.")
+	r.rule(rule, "Constant regular expressions: every constant pattern compiled or matched in the packages listed for this property in tables/regexp_consts.tsv is the audited one (compared after regexp/syntax parsing and simplification; per package, wherever in the package it is compiled), and no further constant pattern appears in those packages. The patterns decide which ACL lines are the same line up to the log attribute, which names are Netspoc's, what is a banner, what is masked before it is logged.")
 	want := map[string][]string{}
 	why := map[string]string{}
 	for _, row := range readTable("regexp_consts.tsv", 4) {
@@ -104,10 +103,14 @@ func ruleRegexpConsts(p *Prog, r *Report, rule, prop string, floor int) {
 		sort.Strings(g)
 		sort.Strings(w)
 		ok := strings.Join(g, "\x00") == strings.Join(w, "\x00")
-		r.add(rule, "patterns|"+n, pos[n], fmt.Sprintf("%s works with the %d audited pattern(s) (%s)", n, len(w), why[n]), ok,
+		if !ok && len(g) == len(w) {
+			// same patterns up to spelling: pair off equal texts, then patterns with the same language
+			ok = rxMatchUp(g, w)
+		}
+		r.add(rule, "patterns|"+n, pos[n], fmt.Sprintf("package %s works with the %d audited pattern(s)", n, len(w)), ok,
 			fmt.Sprintf("the constant patterns changed.\n   audited: %q\n   now:     %q", w, g))
 	}
-	r.floor(rule, "functions with audited patterns for "+prop, len(names), floor)
+	r.floor(rule, "packages with audited patterns for "+prop, len(names), floor)
 }
 
 func init() {
@@ -116,4 +119,48 @@ func init() {
 			fmt.Printf("%s\t%s\tPROPS\tREASON\t# %s\n", s.Fn, s.Pattern, p.ipos(s.In))
 		}
 	}
+}
+
+// rxMatchUp: the two lists can be paired so that each pair is the same text or the same
+// language of whole strings (and agrees on the number of capture groups).
+func rxMatchUp(g, w []string) bool {
+	left := append([]string{}, w...)
+	var rest []string
+	for _, x := range g {
+		found := false
+		for i, y := range left {
+			if x == y {
+				left = append(left[:i], left[i+1:]...)
+				found = true
+				break
+			}
+		}
+		if !found {
+			rest = append(rest, x)
+		}
+	}
+	for _, x := range rest {
+		found := false
+		for i, y := range left {
+			if strings.Count(x, "(")-strings.Count(x, "(?") != strings.Count(y, "(")-strings.Count(y, "(?") {
+				continue
+			}
+			// the same whole strings, and found in the same texts when searched for
+			if same, ok := rxSameLanguage(x, y); ok && same && rxSameSearch(x, y) {
+				left = append(left[:i], left[i+1:]...)
+				found = true
+				break
+			}
+		}
+		if !found {
+			return false
+		}
+	}
+	return len(left) == 0
+}
+
+func rxSameSearch(x, y string) bool {
+	wrap := func(p string) string { return "(?s:.*)(?:" + p + ")(?s:.*)" }
+	same, ok := rxSameLanguage(wrap(x), wrap(y))
+	return ok && same
 }
